@@ -53,7 +53,6 @@ let case (line : string) : string =
      | ["fs_stat"; p] -> show_out (uv_fs_stat_async (b p) l0 w)
      | ["fs_rename"; p] -> show_out (uv_fs_rename_async (b p) l0 w)
      | "os_environ" :: env -> show_out (uv_os_environ (List.map b env) l0 w)
-     | "os_environ_fixed" :: env -> show_out (uv_os_environ_fixed (List.map b env) l0 w)
      | ["fs_event_start"; i; k; r] -> show_out (uv_fs_event_start (b i) (b k) (b r) l0 w)
      | ["getaddrinfo"; p] -> show_out (uv_getaddrinfo None (b p) l0 w)
      | "spawn" :: f :: stdio -> show_out (uv_spawn (List.map b stdio) (b f) l0 w)
